@@ -102,6 +102,9 @@ Definition osm_static (k : nat) (d : typedef) : bool :=
 
 Definition keep (P : Prop) : Prop := P.
 
+Lemma if_false_hyp : forall (c a b : bool), c = false -> (if c then a else b) = true -> b = true.
+Proof. intros c a b Hc H. subst c. exact H. Qed.
+
 Ltac split_and H := repeat (apply andb_true_iff in H; destruct H as [H ?]).
 
 Lemma osm_block : forall n' d vs,
@@ -144,7 +147,7 @@ Proof.
     | K : is_attr f = false |- _ => fail 1
     | _ => destruct (elem_not_attr f H)
     end end.
-  repeat match goal with K : x_skip (f_xml ?f) = false, H : context[x_skip (f_xml ?f)] |- _ => rewrite K in H; cbv iota in H end.
+  repeat match goal with K : x_skip (f_xml ?f) = false, H : (if x_skip (f_xml ?f) then _ else _) = true |- _ => apply (if_false_hyp _ _ _ K) in H end.
   (* header values are strings *)
   repeat match goal with Hk : rk sch (f_type ?f) = RString, W : wf sch n' (f_type ?f) ?v = true |- _ =>
     let s := fresh "str" in destruct (wf_string _ _ _ W Hk) as [s ->]; clear W end.
